@@ -58,7 +58,9 @@ pub fn main(tier: &str, seed: u64, n_override: Option<u64>) {
     let n = n_override.unwrap_or(if tier == "thorough" { 200_000 } else { 4_000 });
     let mut rng = Rng::new(seed ^ 0xC03);
     for idx in 0..n {
-        let p = if idx % 8 == 0 { known_params(idx / 8) } else { random_params(&mut rng) };
+        let mut p = if idx % 8 == 0 { known_params(idx / 8) } else { random_params(&mut rng) };
+        // forward kinematics does not depend on how many joints the inverse solves for
+        if idx % 6 == 1 { p.dof = 5; }
         let span = match idx % 5 { 0 => 100.0, 1 => 7.0, _ => 3.2 };
         let j = random_joints(&mut rng, span);
         println!("{}", run_case(&p, &j, idx, &mut rng));
